@@ -1063,10 +1063,11 @@ struct OpList
   std::vector<std::pair<int, int>> ops; // (kind, subset or -1)
 };
 
-// Known findings (decided by the lead, work/notes/C05_findings.md): F3 Hessian requests ignore zero_seg0_end_planes,
-// F5 subset sensitivities of TOF data with the non-TOF sensitivity projector use other views than the subset.
+// Known finding (decided by the lead, work/notes/C05_findings.md): F5 subset sensitivities of TOF data with the non-TOF
+// sensitivity projector use other views than the subset.
 // Cases whose OWN request list contains such a request are skipped as a whole through known_signature(); the
 // requests the harness adds itself (sum over subsets, all first-use orders) are skipped here.
+// (F3, Hessian requests ignoring zero_seg0_end_planes, is repaired in /repo: replays/C05/fixed_hessian_zero_seg0_end_planes.json)
 bool
 excluded_op(const Ctx& x, const int kind)
 {
@@ -1075,11 +1076,6 @@ excluded_op(const Ctx& x, const int kind)
   if (kind == SENS_S && x.sens_subsets_mismatch && x.use_subset_sens)
     {
       stats().count("skipped harness-added request: subset sensitivity, known finding C05:tof:nontof-subset-sensitivity:view-symmetries");
-      return true;
-    }
-  if (is_hessian(kind) && x.zero_ends)
-    {
-      stats().count("skipped harness-added request: Hessian, known finding C05:hessian:zero_seg0_end_planes");
       return true;
     }
   return false;
@@ -1521,21 +1517,11 @@ gen_config(Src& s, int size, int force_tof /* -1 free, 0 no, 1 yes */)
   return c;
 }
 
-// ---- known findings: the input classes, as predicates on the Case ---------------------------------
+// ---- known finding: the input class, as predicates on the Case -----------------------------------
 inline int
 op_kind(const json& o)
 {
   return int(((o[0].get<long>() % NUM_KINDS) + NUM_KINDS) % NUM_KINDS);
-}
-bool
-ops_have_hessian(const json& c)
-{
-  if (c.value("all_orders", false))
-    return true;
-  for (const json& o : c["ops"])
-    if (is_hessian(op_kind(o)))
-      return true;
-  return false;
 }
 bool
 ops_have_subset_sens(const json& c)
@@ -1582,8 +1568,6 @@ known_signature(const json& c)
 {
   if (no_exclude())
     return "";
-  if (c["zero_ends"].get<bool>() && ops_have_hessian(c))
-    return "C05:hessian:zero_seg0_end_planes";
   if (ops_have_subset_sens(c) && f5_config(c))
     return "C05:tof:nontof-subset-sensitivity:view-symmetries";
   return "";
@@ -1621,19 +1605,16 @@ gen(Src& s, int size)
   const int extra = int(s.range(0, 4));
   for (int i = 0; i < extra; ++i)
     ops.push_back(json::array({ int(s.range(0, NUM_KINDS - 1)), int(s.range(0, 63)) }));
-  // known findings F3/F5: most affected configurations get request lists WITHOUT the affected request kind, so that
+  // known finding F5: most affected configurations get request lists WITHOUT the affected request kind, so that
   // everything else is still checked on them; the remaining quarter is the excluded class (known_signature)
-  const bool keep_f3 = s.chance(1, 4), keep_f5 = s.chance(1, 4);
+  const bool keep_f5 = s.chance(1, 4);
   if (!no_exclude())
     {
-      const bool f3 = c["zero_ends"].get<bool>() && !keep_f3;
       c["ops"] = ops;
       const bool f5 = !keep_f5 && ops_have_subset_sens(c) && f5_config(c);
       for (json& o : ops)
         {
           const int k = op_kind(o);
-          if (f3 && is_hessian(k))
-            o[0] = (k == HESS_S) ? int(GRAD_S) : (k == AHESS_S) ? int(GRADSENS_S) : (k == HESS_ALL) ? int(GRAD_ALL) : int(VALUE_ALL);
           if (f5 && k == SENS_S)
             o[0] = int(SENS_ALL);
         }
@@ -1661,7 +1642,6 @@ enumerate(uint64_t idx, int tier, json& c)
   c["sum_check"] = false;
   c["threshold_class"] = false;
   c["ops"] = json::array();
-  c["zero_ends"] = false; // known finding F3 (all orders contain Hessian requests)
   if (f5_config(c))
     c["use_tofsens"] = true; // known finding F5 (all orders contain subset-sensitivity requests)
   return true;
